@@ -5,12 +5,13 @@ from ..tables import t5x_sampling as S
 
 
 def run(ctx: Ctx) -> None:
-    T.run_identity(ctx)
-    T.run_views(ctx)
-    T.run_param_matrix(ctx)
-    T.run_composites(ctx)
-    S.run_transformers(ctx)
-    T.run_generic(ctx)
+    with ctx.parallel():  # every obligation of these tables builds its own environment: evaluated by worker processes
+        T.run_identity(ctx)
+        T.run_views(ctx)
+        T.run_param_matrix(ctx)
+        T.run_composites(ctx)
+        S.run_transformers(ctx)
+        T.run_generic(ctx)
     ctx.floor("T67.generic", 12)
     ctx.floor("T12.identity", 40)
     ctx.floor("T67.views", 20)
